@@ -112,7 +112,7 @@ def wf_options(h, o):
     return z3.Or(is_none(o), z3.And(
         is_dict(o), V.dref(o) >= MB, V.dref(o) < h.alloc,
         z3.Implies(h.dhas(V.dref(o), z3.StringVal('globals')),
-                   z3.Or(is_none(g), z3.And(is_dict(g), V.dref(g) >= MB, V.dref(g) < h.alloc)))))
+                   z3.Or(is_none(g), z3.And(is_dict(g), V.dref(g) >= MB, V.dref(g) < h.alloc, V.dref(g) != V.dref(o))))))
 
 
 def wf_locals(h, l):
@@ -537,8 +537,9 @@ def binop_spec(op, H, lv, rv):
     if op == '**':
         undefined = z3.Or(z3.And(x == 0, y < 0), z3.And(x < 0, z3.Not(z3.IsInt(y))))
         val = z3.If(z3.And(bothint, V.i(rv) >= 0), VInt(z3.ToInt(POW(x, y))), VFloat(POW(x, y)))
-        may_overflow = z3.And(both, x != 0, x != 1, x != -1, y != 0)
-        return [z3.If(z3.And(both, z3.Not(undefined)), val, VNone), z3.If(may_overflow, VNone, VOTHER_NEVER)]
+        from pyvc.models_ops import DBL_MAX_R
+        overflow = z3.And(z3.Not(z3.And(bothint, V.i(rv) >= 0)), z3.Or(POW(x, y) > DBL_MAX_R, POW(x, y) < -DBL_MAX_R))
+        return [z3.If(z3.And(both, z3.Not(undefined), z3.Not(overflow)), val, VNone)]
     if op in ('==', '!=', '<=', '<', '>=', '>'):
         c = sp_.CMP(Ht, lv, rv)
         rel = {'==': c == 0, '!=': c != 0, '<=': c <= 0, '<': c < 0, '>=': c >= 0, '>': c > 0}[op]
@@ -626,7 +627,8 @@ def eval_step_spec(contract, K, out):
             alts = binop_spec(op, H2, lv, rv)
             guard = z3.And(in_float_range(lv), in_float_range(rv))
             obs.append(('C03.binary-operands-evaluated-once-left-to-right', z3.And(*order)))
-            obs.append(('C03.operator-semantics', z3.Implies(guard, z3.Or([veq(res, a) for a in alts]))))
+            tag = 'C03+C11' if op in ('==', '!=', '<=', '<', '>=', '>') else 'C03+C12'
+            obs.append((f'{tag}.operator-semantics', z3.Implies(guard, z3.Or([veq(res, a) for a in alts]))))
             obs.append(('C03.no-host-calls', len(calls) == 0))
     elif case == 'function-if':
         args = _sub(e, 'function', 'args')
@@ -926,6 +928,8 @@ class ExecuteScriptHelper(FnContract):
 
     callable_model = staticmethod(host_callable_model)
 
+    slow_cases = ('stmt-include',)     # verified in the thorough tier only (tens of minutes of path exploration)
+
     def cases(self):
         """one verification job per statement kind (the split is made at the head of the statement loop)"""
         return [(f'stmt-{k}', lambda K: []) for k in STMT_KEYS]
@@ -991,7 +995,15 @@ def _helper_loop_specs(self):
         stmts = K.term(0)
         ix = L.int('ix_statement')
         st = MH.lget(V.lref(stmts), ix)
-        return [z3.Implies(z3.And(ix >= 0, ix < MH.llen(V.lref(stmts))), z3.And(WFSTMT(st), wfstmt_def(st)))]
+        # instance of the label-cache invariant at the label of the statement about to run
+        li = L.term('label_indexes')
+        jl = V.s(mget(mget(st, 'jump'), 'label'))
+        h = L.heap
+        r = V.dref(li)
+        f = FIRST(stmts, jl)
+        cache_inst = z3.Implies(z3.And(is_dict(li), h.dhas(r, jl)),
+                                z3.And(h.dget(r, jl) == VInt(f), f >= 0, f < MH.llen(V.lref(stmts))))
+        return [z3.Implies(z3.And(ix >= 0, ix < MH.llen(V.lref(stmts))), z3.And(WFSTMT(st), wfstmt_def(st))), cache_inst]
 
     def inv_inc(L):
         return common(L) + [('C08.label-cache-holds-first-matches', cache_ok(L))]
@@ -1342,7 +1354,7 @@ class ExecuteScript(FnContract):
             g = hb.dget(V.dref(o), z3.StringVal('globals'))
             g_in = h0.dget(V.dref(o_in), z3.StringVal('globals'))
             supplied = z3.And(is_dict(o_in), h0.dhas(V.dref(o_in), z3.StringVal('globals')), is_dict(g_in))
-            k = z3.String('k!inj')
+            k = z3.String('k!inj_arbitrary')      # an arbitrary key (fresh constant: proving the clause for it proves it for all)
             has_lib = ufun('TABLE_HAS_library.SCRIPT_FUNCTIONS', Str, Bool)
             lib = ufun('TABLE_library.SCRIPT_FUNCTIONS', Str, V)
             was = z3.And(supplied, h0.dhas(V.dref(g_in), k))
@@ -1351,9 +1363,9 @@ class ExecuteScript(FnContract):
                                z3.Implies(is_dict(o_in), o == o_in))))
             obs.append(('C04.caller-supplied-globals-object-is-used', z3.Implies(supplied, g == g_in)))
             obs.append(('C04.library-added-without-overwriting-caller-names',
-                        z3.ForAll([k], z3.If(was, z3.And(hb.dhas(V.dref(g), k), hb.dget(V.dref(g), k) == h0.dget(V.dref(g_in), k)),
-                                             z3.And(hb.dhas(V.dref(g), k) == has_lib(k),
-                                                    z3.Implies(has_lib(k), hb.dget(V.dref(g), k) == lib(k)))))))
+                        z3.If(was, z3.And(hb.dhas(V.dref(g), k), hb.dget(V.dref(g), k) == h0.dget(V.dref(g_in), k)),
+                              z3.And(hb.dhas(V.dref(g), k) == has_lib(k),
+                                     z3.Implies(has_lib(k), hb.dget(V.dref(g), k) == lib(k))))))
             obs.append(('C09.counter-reset-at-entry', hb.dget(V.dref(o), z3.StringVal('statementCount')) == VInt(0)))
         return obs
 
